@@ -130,6 +130,34 @@ func Run(progs []Prog, timeout time.Duration) (map[string]Result, error) {
 			perPkg[cur] += line + "\n"
 		}
 	}
+	// when some packages fail to compile the go command does not write the executables of the
+	// others: build those again on their own (they have no diagnostics, so this build succeeds, or
+	// tells what is wrong with them)
+	if buildErr != nil {
+		var again []string
+		for _, p := range progs {
+			if _, err := os.Stat(filepath.Join(bin, p.Name)); err != nil && perPkg[p.Name] == "" {
+				again = append(again, "./"+p.Name)
+			}
+		}
+		if len(again) > 0 && len(again) < len(progs) {
+			cmd2 := exec.Command("go", append([]string{"build", "-ldflags=-s -w", "-o", bin + "/"}, again...)...)
+			cmd2.Dir = dir
+			cmd2.Env = cmd.Env
+			out2, err2 := cmd2.CombinedOutput()
+			cur = ""
+			for _, line := range strings.Split(string(out2), "\n") {
+				if strings.HasPrefix(line, "# ") {
+					cur = strings.TrimPrefix(strings.Fields(line)[1], "scratch/")
+					continue
+				}
+				if cur != "" && line != "" {
+					perPkg[cur] += line + "\n"
+				}
+			}
+			out, buildErr = out2, err2
+		}
+	}
 	res := map[string]Result{}
 	var mu sync.Mutex
 	var wg sync.WaitGroup
